@@ -386,6 +386,7 @@ class Machine:
                 c = p[op[1]] + p[op[2]]
             except Exception as e:  # noqa: BLE001
                 self.exc.append(exc_class(e))
+                p.append(hg.Count())      # keep pool indexes stable (as Run.step does)
                 return [1]
             p.append(c)
             return [0] + snap(c)
@@ -405,6 +406,7 @@ class Machine:
                 c = p[op[1]] * op[2] if not op[3:] or not op[3] else op[2] * p[op[1]]
             except Exception as e:  # noqa: BLE001
                 self.exc.append(exc_class(e))
+                p.append(hg.Count())
                 return [1]
             p.append(c)
             return [0] + snap(c)
@@ -416,6 +418,13 @@ class Machine:
             c = p[op[1]].copy()
             p.append(c)
             return [0] + snap(c)
+        if t == "hash":
+            try:
+                hash(p[op[1]])
+                return [0]
+            except Exception as e:  # noqa: BLE001
+                self.exc.append(exc_class(e))
+                return [1]
         if t == "snapall":
             out = []
             for a in p:
